@@ -1,5 +1,5 @@
 rc_target("c01_bytebuf", flavour="asan-dbg")
-plan("C01", [T("c01_bytebuf", 20000, 75000)], min_nt=8000,
+plan("C01", [T("c01_bytebuf", 20000, 75000), TT(GCC("c01_bytebuf"), 8000)], min_nt=8000,
      rule="stateful command sequences over byte buffers and cursors against a plain model and a full before/after snapshot",
      technique="model-based property testing (rapidcheck): command sequences vs. a plain model of every buffer and cursor; "
                "full-state snapshot equality for every command that reports failure and for every read-only command; guard bytes, "
